@@ -279,14 +279,20 @@ func (c *VirtualTable) BestIndex(input []IndexInput, order []OrderInput) (*Index
 	out.AlreadyOrdered = true
 	var desc *bool
 	for i := range order {
+		if desc != nil {
+			// The key is unique, so terms after it cannot change the order;
+			// anything else is left for SQLite to sort.
+			break
+		}
 		if order[i].Column != c.KeyCol {
 			out.AlreadyOrdered = false
 		}
-		if desc != nil {
-			return nil, errors.New("order specified multiple times")
-		}
 		v := order[i].Desc
 		desc = &v
+	}
+	if len(order) > 0 && order[0].Column != c.KeyCol {
+		a := false
+		desc = &a
 	}
 	if desc == nil {
 		a := false
